@@ -1,5 +1,6 @@
 import DashLive.Lemmas.Inject
 import DashLive.Gen.Options
+import DashLive.Gen.ParserLoops
 import DashLive.Lemmas.Events
 import DashLive.Lemmas.Periods
 /-!
@@ -539,5 +540,87 @@ theorem loops_terminate_periods (ps : List DashLive.Periods.PeriodDef) (E F nl :
 /-- the excluded value: periods of zero total duration – the loop makes no progress
 (here: 100 iterations).  Since a1efbe1 such a stream is refused with 404 before. -/
 example : DashLive.Periods.liveLoop [⟨['p'], 0⟩] 100 0 100 0 0 0 = none := by decide +kernel
+
+/-! ### count-driven loops of the MP4 parser -/
+
+/-- a loop never starts more iterations than its count, and – when every iteration reads at
+least `k > 0` bytes through a read that raises at the end of the input – no more than
+`rem / k + 1` -/
+theorem countLoop_le (k : Nat) : ∀ (count rem : Nat),
+    countLoop k count rem ≤ count ∧ (0 < k → countLoop k count rem ≤ rem / k + 1) := by
+  intro count
+  induction count with
+  | zero => intro rem; simp [countLoop]
+  | succ n ih =>
+    intro rem
+    unfold countLoop
+    by_cases h : rem < k
+    · simp only [h, if_true]
+      exact ⟨by omega, fun _ => Nat.le_add_left 1 _⟩
+    · simp only [h, if_false]
+      obtain ⟨h1, h2⟩ := ih (rem - k)
+      refine ⟨by omega, fun hk => ?_⟩
+      have h3 := h2 hk
+      have h4 : (rem - k) / k + 1 = rem / k := by
+        have : rem = (rem - k) + k := by omega
+        conv => rhs; rw [this]
+        rw [Nat.add_div_right _ hk]
+      omega
+
+/-- **loops_terminate (parser, per loop).** For a loop described by a `ParserLoop` row, any
+value of its count field and any input length: the number of iterations is at most the bound
+the row supports – the constant cap, the width of the count field, or `len / minBytes + 1`. -/
+theorem parser_loop_iterations (l : ParserLoop) (count len b : Nat) (hc : count ≤ l.countMax)
+    (hb : l.bound len = some b) : l.run count len ≤ b := by
+  unfold ParserLoop.bound at hb
+  unfold ParserLoop.run
+  cases hcap : l.cap with
+  | some c =>
+    simp only [hcap, Option.some.injEq] at hb
+    simp only
+    by_cases hgt : count > c
+    · simp [hgt]
+    · simp only [hgt, if_false]
+      have := (countLoop_le l.minBytes count len).1
+      omega
+  | none =>
+    simp only [hcap] at hb
+    simp only
+    by_cases h16 : l.countMax ≤ 65535
+    · simp only [h16, if_true, Option.some.injEq] at hb
+      have := (countLoop_le l.minBytes count len).1
+      omega
+    · simp only [h16, if_false] at hb
+      by_cases hk : l.minBytes > 0
+      · simp only [hk, if_true, Option.some.injEq] at hb
+        have := (countLoop_le l.minBytes count len).2 hk
+        omega
+      · simp [hk] at hb
+
+/-- **loops_terminate (parser, the source).** Every `for … in range(count)` loop of the `parse`
+functions of `dashlive/mpeg/mp4.py` (table regenerated from the source on every run) has such a
+bound: none is limited only by a 32-bit count field.  (Removing the cap of the `trun` or `senc`
+loop, whose samples can take no space in the box, breaks this obligation.) -/
+theorem parser_loops_bounded :
+    (DashLive.Gen.ParserLoops.table.all fun l => (l.bound 0).isSome) = true := by
+  decide
+
+/-- the two loops whose body may read nothing are capped by `MAX_SAMPLE_COUNT`, which exists -/
+theorem parser_zero_size_loops_capped :
+    DashLive.Gen.ParserLoops.maxSampleCount.isSome = true ∧
+    ((DashLive.Gen.ParserLoops.table.filter fun l => l.minBytes == 0 && decide (l.countMax > 65535)).all
+      fun l => l.cap.isSome && l.cap == DashLive.Gen.ParserLoops.maxSampleCount) = true := by
+  decide
+
+/-- `FieldReader.get(<n bytes>)` raises on a short read – what makes byte-sized reads count -/
+theorem parser_short_read_raises : DashLive.Gen.ParserLoops.shortReadRaises = true := by decide
+
+/-- the excluded shape: a loop over a 32-bit count whose body reads nothing and that has no cap
+runs as often as the count says (here 50 of 50 on an empty input) … -/
+example : (⟨"X", "parse", 0, "n", none, 4294967295, 0⟩ : ParserLoop).bound 0 = none ∧
+    (⟨"X", "parse", 0, "n", none, 4294967295, 0⟩ : ParserLoop).run 50 0 = 50 := by decide
+/-- … whereas the capped one refuses it and a reading one stops at the end of the input -/
+example : (⟨"X", "parse", 0, "n", some 100, 4294967295, 0⟩ : ParserLoop).run 1000 0 = 0 ∧
+    (⟨"X", "parse", 0, "n", none, 4294967295, 4⟩ : ParserLoop).run 50 10 = 3 := by decide
 
 end DashLive.C16
